@@ -18,6 +18,12 @@ def psSet (l : List (String × Bool × Bool)) (k : String) (v : Bool × Bool) : 
   if l.any (·.1 = k) then l.map (fun e => if e.1 = k then (k, v) else e) else l ++ [(k, v)]
 def psDel (l : List (String × Bool × Bool)) (k : String) : List (String × Bool × Bool) := l.filter (·.1 ≠ k)
 
+/-- the other participant of a p2p topic, read off the topic's name (types.ParseP2P) - the other one's subscription may be gone -/
+def p2pOther (key : String) (u : Uid) : String :=
+  match key.splitOn ":" with
+  | ["P", x, y] => if u = x then y else x
+  | _ => key
+
 /-- loadContacts (pres.go:69-80) over store.Users.GetSubs: every live subscription of the user; a p2p topic is indexed by the other
 user, the user's own `me` is skipped -/
 def World.contactsOf (w : World) (u : Uid) : List (String × Bool × Bool) :=
@@ -28,7 +34,7 @@ def World.contactsOf (w : World) (u : Uid) : List (String × Bool × Bool) :=
   w.store.foldl (fun acc r =>
     let acc := match r.subs.find? (fun s => s.user = u ∧ !s.deleted) with
       | some s =>
-        let name := if isP2PKey r.name then ((r.subs.find? (·.user ≠ u)).map (·.user)).getD r.name else r.name
+        let name := if isP2PKey r.name then p2pOther r.name u else r.name
         psSet acc name (false, isPresencer (s.want &&& s.given) && isJoiner (s.want &&& s.given))
       | none => acc
     match r.csubs.find? (fun s => s.user = u ∧ !s.deleted) with
@@ -123,12 +129,31 @@ def Ctx.forwardOnMe (c : Ctx) (t : Topic) (p : PresMsg) (what : String) : Ctx :=
     else if !passesPres t what p.filterIn p.filterOut uid then c
     else c.emit sid (presFrame t.name { p with what := what })) c
 
+/-- the category of a loaded topic is "group" (`topic.cat == types.TopicCatGrp`): not `me`, not `fnd`, not p2p -/
+def Topic.isGrpCat (t : Topic) : Bool := !(t.isMe || t.isFnd || isP2PKey t.name)
+
+/-- a group topic hears that the account of one of its subscribers (not the owner) is gone (handlePresence, fix 2f1) -/
+def goneMember (t : Topic) (p : PresMsg) : Bool :=
+  t.isGrpCat && !p.isInfo && p.what == "gone" && p.src != "" && p.src != t.owner && (t.pud? p.src).isSome
+
+/-- Topic.subscriberGone: the topic forgets the user the way it does when the user unsubscribes (notifySubChange, evictUser) -/
+def Ctx.evictGone (c : Ctx) (t : Topic) (u : Uid) : Ctx :=
+  let pud := t.pud u
+  let c := if pud.isChan then
+      let dWant := String.ofList (notifyStr modeCChnReader modeUnset)
+      let acs := s!" dacs={if dWant.isEmpty then "_" else dWant}/{if dWant.isEmpty then "_" else dWant}"
+      c.presOnline t { what := "acs", src := u, extra := acs, filterIn := modeCSharer, excludeUser := u }
+    else c.notifySubChange t u u pud.want pud.given modeUnset modeUnset ""
+  let (c, t) := if t.isChan then c.evictUserC t u true "" else c.evictUser t u true ""
+  c.putLive t
+
 /-- one message taken off the queue of notifications addressed to topics by name (`hub.routeSrv`, RcptTo = a user or a group) -/
 def Ctx.deliverOff (c : Ctx) (rcpt : TName) (p : PresMsg) : Ctx :=
   match c.w.live? rcpt with
   | none => c
   | some t =>
     if t.inactive then c else
+    if goneMember t p then c.evictGone t p.src else
     if p.isInfo then (if t.isMe then c.forwardOnMe t p p.what else c) else
     let (t', fwd, reply) := procPresReq t p.src p.what p.cmd p.wantReply
     let c := if t' ≠ t then c.putLive t' else c
@@ -270,7 +295,7 @@ def Ctx.opSubMe (c : Ctx) (a : Actor) : Ctx :=
         let want := accessForMe t a.lvl &&& ~~~modeOwner
         if !isJoiner given then (c.emit a.sid (ctrl 403 tn), none) else
         let needCreate := match prev with | none => true | some s => s.deleted
-        let (c, ok) := if needCreate then c.call "TopicShare" (effCreateMeSub (newSubRow a.uid want given none)) else (c, true)
+        let (c, ok) := if needCreate then c.callFK "TopicShare" a.uid (effCreateMeSub (newSubRow a.uid want given none)) else (c, true)
         if !ok then (c.emit a.sid (ctrl 500 tn), none) else
         let t := t.setPud a.uid { want := want, given := given }
         -- notifySubChange on `me`: a subscription which comes with presence is announced ("on+en") to the contacts known so far
@@ -417,7 +442,7 @@ name, a channel under the `chn` spelling -/
 def World.topicsOf (w : World) (u : Uid) : List (String × SubRow) :=
   w.store.flatMap (fun r =>
     (match r.subs.find? (fun s => s.user = u ∧ !s.deleted) with
-      | some s => [(if isP2PKey r.name then ((r.subs.find? (·.user ≠ u)).map (·.user)).getD r.name else r.name, s)]
+      | some s => [(if isP2PKey r.name then p2pOther r.name u else r.name, s)]
       | none => []) ++
     (match r.csubs.find? (fun s => s.user = u ∧ !s.deleted) with
       | some s => [("chn:" ++ r.name, s)]
